@@ -172,6 +172,11 @@ struct Driver<'a> {
     alts: Vec<u8>,
     check_upto: u32,
     livelock: bool,
+    /// "sticky" focus granularities (name starts with `sticky`): a deviation *suspends* the thread it
+    /// passes over. Suspended threads are not offered until no other thread is runnable or all the
+    /// others are spinning (yielding repeatedly); the oldest suspension is lifted first.
+    suspended: Vec<usize>,
+    yield_streak: [u8; 16],
 }
 
 thread_local! {
@@ -292,6 +297,8 @@ impl Driver<'_> {
         self.alts.clear();
         self.check_upto = check_upto;
         self.livelock = false;
+        self.suspended.clear();
+        self.yield_streak = [0; 16];
     }
 
     fn decide(&mut self, runnable: &[&Task], current: Option<TaskId>, is_yielding: bool) -> Option<TaskId> {
@@ -306,11 +313,49 @@ impl Driver<'_> {
                 n += 1;
             }
         }
-        let ids = &buf[..n];
         if n == 0 {
             // only parked tasks: a lost wake-up. Let the runtime report the deadlock.
             return None;
         }
+        let sticky = matches!(self.gran, Granularity::Focus(name, _) if name.starts_with("sticky"));
+        if sticky {
+            // a thread is "spinning" after two voluntary yields with no focus point in between
+            // (points that are not decisions at this granularity do not count as progress)
+            if let Some(c) = current.map(usize::from) {
+                if c < 16 {
+                    if is_yielding {
+                        self.yield_streak[c] = self.yield_streak[c].saturating_add(1);
+                    } else if let Granularity::Focus(_, set) = self.gran {
+                        if set.contains(&point) {
+                            self.yield_streak[c] = 0;
+                        }
+                    }
+                }
+            }
+            // tasks that are gone or blocked need no suspension record
+            self.suspended.retain(|t| buf[..n].contains(t));
+            loop {
+                let offered: Vec<usize> = buf[..n].iter().copied().filter(|t| !self.suspended.contains(t)).collect();
+                let all_spinning = !offered.is_empty() && offered.iter().all(|&t| self.yield_streak[t.min(15)] >= 2);
+                if (offered.is_empty() || all_spinning) && !self.suspended.is_empty() {
+                    let released = self.suspended.remove(0);
+                    self.yield_streak = [0; 16];
+                    let _ = released;
+                    continue;
+                }
+                break;
+            }
+            // hide the suspended tasks from this decision
+            let mut m = 0;
+            for i in 0..n {
+                if !self.suspended.contains(&buf[i]) {
+                    buf[m] = buf[i];
+                    m += 1;
+                }
+            }
+            n = m;
+        }
+        let ids = &buf[..n];
         let cur = current.map(usize::from);
         let cur_runnable = cur.is_some_and(|c| ids.contains(&c));
         let default = match cur {
@@ -362,6 +407,9 @@ impl Driver<'_> {
                         break;
                     }
                     k += 1;
+                }
+                if sticky && choice != default {
+                    self.suspended.push(default);
                 }
             }
         }
@@ -519,6 +567,8 @@ where
         alts: Vec::with_capacity(1024),
         check_upto: 0,
         livelock: false,
+        suspended: Vec::new(),
+        yield_streak: [0; 16],
     };
     if let Some(devs) = only {
         // single replay: behave as if the root had been run and this is the only child
